@@ -58,6 +58,8 @@ def judge(res, ev, meta, extra=()):
     res.count("lost_callbacks", lost)
     res.count("connect_attempts", attempts)
     res.count("writes", sum(1 for e in ev if e[1] == "WRITE"))
+    if meta.get("other_thread_errors"):
+        res.count("lifetimes_where_a_reader_or_connect_thread_ended_with_an_exception")
     if meta.get("open_after_stop"):
         res.count("lifetimes_with_a_connection_left_open_after_stop")      # outside the statement; reported, not judged
     if meta.get("start_raised"):
